@@ -94,6 +94,13 @@ def gen_ops(rng, timed, tier):
         op.update(_tgt(rng))
         ops.append(op)
     for op in ops:
+        if op['fam'] == 'win' and op['win'][0] == 'n' and op.get('src') == 'df' and op.get('sel') is not None \
+                and op['agg'] not in ('size', 'value_counts') and rng.random() < 0.3:
+            op['ridx'] = True           # window(n, start=state).reset_index()[sel].agg()
+            op['selpos'] = 'after'
+        if op['fam'] in ('win', 'exp') and op['agg'] not in ('size', 'value_counts') and rng.random() < 0.3:
+            # an element-wise step on the windowed object between window(..., start=state) and the aggregation
+            op['wexpr'] = rng.choice(['neg', 'add', 'mul', 'rsub'])
         if op.get('agg') in ('var', 'std') and op['fam'] != 'roll':
             op['ddof'] = rng.choice([1, 1, 0, 2, 3])
         op['pre'] = rng.choice(PRES)
@@ -135,6 +142,10 @@ def exposure(op):
     return 'with_state'
 
 
+class StateNotExposed(Exception):
+    pass
+
+
 def run_a(case, ctx):
     """-> (batches, results[k] or None, errs[k], states[k] or None, build_error)"""
     op = case['op']
@@ -150,6 +161,9 @@ def run_a(case, ctx):
             continue
         o = tr.outs[k][0]
         if mode == 'with_state':
+            if not (isinstance(o, tuple) and len(o) == 2):
+                # with_state=True was asked for and what comes out is not a (state, result) pair
+                return batches, None, None, None, StateNotExposed('with_state=True, but batch %d emitted %s' % (k + 1, E.show(o, 80)))
             states[k], results[k] = o[0], o[1]
             raw_states[k] = tr.raw[k][0][0]
         else:
@@ -199,6 +213,10 @@ def check_case(case, ctx):
     ctx.note('input_classes', cls)
     for f in E.split_features(case['sizes'], lens):
         ctx.note('split_features', f)
+    if isinstance(berr, StateNotExposed):
+        ctx.violate('state-not-exposed@%s' % label, '%s: %s (the window was built with with_state=True: a later step dropped it)'
+                    % (label, berr), case)
+        return 0, False
     if berr is not None:
         ctx.count('uninterrupted_run_cannot_be_built')
         ctx.note('unbuildable', '%s: %r' % (label, berr))
